@@ -51,6 +51,16 @@ def gen_plan(rng, tier, config, opts):
             raw = b'\x04' + b''.join(c.to_bytes(F, 'big') for c in (x[0], x[1], y[0], y[1]))
             lines += ['RAW %d %s %s' % (s, t, raw.hex()), 'DEC %d %s' % (s, t), 'XCODE %d %s 1' % (s, t), 'DEC %d %s' % (s, t),
                       'XCODE %d %s 0' % (s, t), 'DEC %d %s' % (s, t)]
+    if rng.chance(0.04):
+        # the point of order two (0, sqrt(b)) of the binary curve, and the compressed strings with x = 0
+        s = rng.below(8)
+        Bb, m, poly, b = 36, 283, _B283['poly'], _B283['b']
+        y = b
+        for _ in range(m - 1):
+            y = gf2_mul(y, y, poly, m)                  # sqrt(b) = b^(2^(m-1))
+        raw = b'\x04' + (0).to_bytes(Bb, 'big') + y.to_bytes(Bb, 'big')
+        lines += ['RAW %d eb %s' % (s, raw.hex()), 'DEC %d eb' % s, 'XCODE %d eb 1' % s, 'DEC %d eb' % s, 'XCODE %d eb 0' % s, 'DEC %d eb' % s,
+                  'RAW %d eb %s' % (s, (bytes([rng.choice([2, 3])]) + bytes(Bb)).hex()), 'DEC %d eb' % s]
     for _ in range(nops):
         r = rng.below(100)
         if r < 62:
@@ -211,6 +221,8 @@ def _fp2_cbrt(f2, c):
     return x if f2.mul(f2.mul(x, x), x) == c else None
 
 
+_B283 = dict(poly=0x0800000000000000000000000000000000000000000000000000000000000000000010a1,
+             b=0x027b680ac8b8596da5a4af8a19a0303fca97fd7645309fa2a581485af6263e313b79a2f5)
 _BN256 = dict(p=0xb64000000000ff2f2200000085fd5480b0001f44b6b88bf142bc818f95e3e6af, b=(4, -1))
 _SPECIAL_G2 = []
 
@@ -429,7 +441,8 @@ def _validate(typ, data, P):
             if x >> m:
                 return 'degree>=m'
             if x == 0:
-                return None
+                # the point of order two (0, sqrt(b)): its compression bit is zero (SEC 1, 2.3.3)
+                return None if data[0] == 2 else 'sign-of-zero'
             # y^2 + xy = x^3 + a x^2 + b solvable iff Tr(x + a + b/x^2) = 0
             xi = gf2_inv(x, poly, m)
             t = x ^ a ^ gf2_mul(b, gf2_mul(xi, xi, poly, m), poly, m)
